@@ -730,7 +730,7 @@ class Lexer(object):
         r'(?:' + identifier_start + r'|' + unicode_escape + r')' +
         r'(?:' + identifier_part[:-1] + r'|' + unicode_escape + r')*'
     )
-    patt_plain_identifier = re.compile(plain_identifier + r'$', flags=re.U)
+    patt_plain_identifier = re.compile(plain_identifier + r'\Z', flags=re.U)
     patt_unicode_escape = re.compile(r'\\u([0-9a-fA-F]{4})')
 
     # what may follow the get / set of an accessor property: white space,
